@@ -247,13 +247,15 @@ macro_rules! impl_bop {
                     u = 1.0;
                     a = (self.base_rate + rhs.base_rate) / 2.0;
                 } else {
-                    let denom = self.u() + rhs.u() - 2.0 * self.u() * rhs.u();
                     let ca = 1.0 - self.u();
                     let cb = 1.0 - rhs.u();
+                    // u_a + u_b - 2 u_a u_b and 2 - u_a - u_b without cancellation
+                    let denom = self.u() * cb + rhs.u() * ca;
+                    let csum = ca + cb;
                     b = (self.b() * ca * rhs.u() + rhs.b() * cb * self.u()) / denom;
                     d = (self.d() * ca * rhs.u() + rhs.d() * cb * self.u()) / denom;
-                    u = (2.0 - self.u() - rhs.u()) * self.u() * rhs.u() / denom;
-                    a = (self.base_rate * ca + rhs.base_rate * cb) / (2.0 - self.u() - rhs.u());
+                    u = csum * self.u() * rhs.u() / denom;
+                    a = (self.base_rate * ca + rhs.base_rate * cb) / csum;
                 }
                 Self::try_new(b, d, u, a)
             }
